@@ -23,6 +23,7 @@ from . import c04 as C04
 
 SRC = 'skfem/assembly/dofs.py'
 NAME_KEY = 'names:edge-facet-order'
+SECOND_ORDER = {'tri2': 'MeshTri2', 'quad2': 'MeshQuad2', 'tet2': 'MeshTet2'}
 
 
 # ------------------------------------------------------------------------------ translator
@@ -288,16 +289,21 @@ class Context:
 
     def __init__(self, rng, kind, name, fac, maxcells, pt=None):
         from skfem.assembly import Basis
-        p, t, info = M.gen_raw(rng, kind, maxcells=maxcells) if pt is None else (pt[0], pt[1], {'style': 'replay'})
-        m = M.build(kind, p, t)
+        if kind in SECOND_ORDER:          # library-built second-order meshes: more points than vertices
+            import skfem
+            m = getattr(skfem, SECOND_ORDER[kind])().refined(1)
+            info = {'style': 'second-order'}
+        else:
+            p, t, info = M.gen_raw(rng, kind, maxcells=maxcells) if pt is None else (pt[0], pt[1], {'style': 'replay'})
+            m = M.build(kind, p, t)
         self.kind, self.name, self.info = kind, name, info
-        nf, nt, nv = m.facets.shape[1], m.t.shape[1], m.p.shape[1]
+        nf, nt, nv = m.facets.shape[1], m.t.shape[1], int(m.nvertices)      # the nodes are the vertices
         cf = [float(np.sort(m.p[d])[len(m.p[d]) // 2]) + 0.123 for d in range(m.p.shape[0])]
         midf = m.p[:, m.facets].mean(axis=1)
         midt = m.p[:, m.t].mean(axis=1)
         self.predF = [((lambda x, d=d, c=c: x[d] < c), midf[d] < c) for d, c in enumerate(cf)]
         self.predE = [((lambda x, d=d, c=c: x[d] < c), midt[d] < c) for d, c in enumerate(cf)]
-        self.predN = [((lambda x, d=d, c=c: x[d] < c), m.p[d] < c) for d, c in enumerate(cf)]
+        self.predN = [((lambda x, d=d, c=c: x[d] < c), m.p[d, :nv] < c) for d, c in enumerate(cf)]
         bfac = np.nonzero(m.f2t[1] == -1)[0]
 
         def rarr(n, k, uniq=False):
@@ -316,15 +322,17 @@ class Context:
                  ({'sb': pE}, {'sb': np.nonzero(mE)[0].astype(np.int32)}),
                  ({'sa': rarr(nt, 3), 'sc': rarr(nt, 3)}, None)]
         self.defaults = False
-        try:                                     # default tags ('left', 'right', ...) that are then overridden
+        self.defaults_error = None
+        try:                                     # default tags ('left', 'right', ...) one of which is then overridden
             md = m.with_defaults()
-            if md.boundaries and 'left' in md.boundaries:
+            if md.boundaries:
+                first = sorted(md.boundaries)[0]
                 histF = [({k: np.asarray(v).astype(np.int32) for k, v in md.boundaries.items()}, None),
-                         ({'left': rarr(nf, 4, True)}, None)] + histF
+                         ({first: rarr(nf, 4, True)}, None)] + histF
                 m0 = md
                 self.defaults = True
-        except Exception:
-            pass
+        except Exception as ex:                  # reported by the oracle (retag:with_defaults)
+            self.defaults_error = f'{type(ex).__name__}: {ex}'
         m_before = m
         for i, (d, _) in enumerate(histF):
             if i == 0 and self.defaults:
@@ -475,7 +483,7 @@ def make_queries(rng, c, nq):
             out.append((f'(QE {s.coq} {cskip} {post_c})', (lambda s=s, kw=kw, post_py=post_py: post_py(b.get_dofs(elements=s.py, **kw))),
                         ('E', repr(s.py)[:80], skip, pk, nm, bkd if pk >= 4 else '', bmode if pk >= 4 else ''), {'on': 'E', 'ids': [s.ids], 'skip': skip, 'pk': pk, 'nm': nm, 'bkd': bkd, 'bmode': bmode}))
         elif kind == 'N':
-            s = rand_selector(rng, c.n['N'], {}, c.predN, {'arr', 'pred', 'coll'})
+            s = rand_selector(rng, c.n['N'], {}, c.predN, {'int', 'arr', 'pred', 'coll'})
             def detuple(x):                      # a tuple means "the point with these coordinates" for nodes
                 return [detuple(y) for y in x] if isinstance(x, (tuple, list)) else x
             s.py = detuple(s.py)
@@ -653,6 +661,36 @@ def oracle_context(ctx, c, rng):
                  dict(data, tag=nmE))
     if c.m_before.boundaries is not None or c.m_before.subdomains is not None:
         ctx.fail('retag:operand', 'with_boundaries / with_subdomains modified the mesh they were called on', data)
+    if c.defaults_error:
+        ctx.fail('retag:with_defaults', f'{type(m).__name__}.with_defaults() raises {c.defaults_error}: the default tags (left, right, ...) '
+                 'cannot be used as selectors', data)
+    # nodes: an int, ints inside a list / set, an index array and a predicate naming the same vertices agree
+    nvx = int(m.nvertices)
+    vs = sorted(set(int(x) for x in rng.integers(0, nvx, size=3)))
+    want_n = b.get_dofs(nodes=np.array(vs, dtype=np.int32)).flatten().tolist()
+    forms = [('list of ints', list(vs)), ('set of ints', set(vs)), ('nested', [vs[0], np.array(vs[1:], dtype=np.int32)])] + \
+        ([('int', vs[0])] if len(vs) == 1 else [])
+    one = b.get_dofs(nodes=np.array(vs[:1], dtype=np.int32)).flatten().tolist()
+    forms.append(('int', vs[0]))
+    for what, val in forms:
+        ctx.count(('node-forms', c.kind, c.name, what), nontrivial=True)
+        try:
+            got = b.get_dofs(nodes=val).flatten().tolist()
+        except Exception as ex:
+            got = f'{type(ex).__name__}: {ex}'
+        if got != (one if what == 'int' else want_n):
+            ctx.fail('selector:node-forms', f'get_dofs(nodes={val!r}) on {type(m).__name__}/{c.name} gives {got!r:.90}, the index array of the '
+                     f'same vertices gives {(one if what == "int" else want_n)!r:.60}', dict(data, nodes=repr(val)))
+    pn, mask = c.predN[0]
+    want_p = b.get_dofs(nodes=np.nonzero(mask)[0].astype(np.int32)).flatten().tolist()
+    try:
+        got_p = b.get_dofs(nodes=pn).flatten().tolist()
+    except Exception as ex:
+        got_p = f'{type(ex).__name__}: {ex}'
+    ctx.count(('node-pred', c.kind, c.name, m.t.tolist()), nontrivial=True)
+    if got_p != want_p:
+        ctx.fail('selector:node-predicate', f'get_dofs(nodes=predicate) on {type(m).__name__}/{c.name} ({m.p.shape[1]} points, {nvx} vertices) '
+                 f'gives {got_p!r:.90} but the vertices satisfying the predicate carry {want_p!r:.60}', data)
     # the empty list / tuple / set denotes the empty set
     for kw, val in (('facets', []), ('facets', ()), ('facets', set()), ('elements', []), ('elements', ()), ('nodes', [])):
         ctx.count(('empty', c.kind, c.name, kw, type(val).__name__), nontrivial=False)
@@ -671,7 +709,7 @@ def oracle_context(ctx, c, rng):
     ctx.count(('elements', c.kind, c.name, E.tolist(), m.t.tolist()), nontrivial=True)
     if got != want:
         ctx.fail(f'elem={c.name}:{c.kind}:element-query', f'get_dofs(elements={E.tolist()}) is not the set of DOFs of those cells', dict(data, elements=E.tolist()))
-    N = rng.integers(0, m.p.shape[1], size=int(rng.integers(1, 4)))
+    N = rng.integers(0, int(m.nvertices), size=int(rng.integers(1, 4)))
     got = b.get_dofs(nodes=np.array(N, dtype=np.int32)).flatten().tolist()
     nd_ = np.asarray(b.nodal_dofs)
     want = sorted(set(nd_[:, sorted(set(N.tolist()))].flatten().tolist())) if nd_.size else []
@@ -746,6 +784,8 @@ def run(ctx):
         for name, fac in _elements_for(kind, ctx.quick(), rng):
             contexts.append((kind, name, fac))
     contexts += _edge_facet_composites()
+    import skfem.element as _E
+    contexts += [('tri2', 'ElementTriP2', _E.ElementTriP2), ('quad2', 'ElementQuad2', _E.ElementQuad2), ('tet2', 'ElementTetP2', _E.ElementTetP2)]
     for kind, name, fac in contexts:
         for rep in range(ctx.n(1, 2)):
             try:
@@ -849,7 +889,7 @@ def trace_instances(ctx):
             + ''.join(f'Require Import Gen.{g}.\n' for g in groups) + 'Require Import Gen.C03_Traces.\nLocal Open Scope nat_scope.\n')
     defs = {}
     for n in info3['names']['traced']:
-        e = translated[n].elem
+        e = translated[n[:-4] if n.endswith('_eff') and n not in translated else n].elem
         rd = e.refdom
         d = int(rd.dim())
         fac = [[int(x) for x in r] for r in rd.facets]
@@ -859,22 +899,7 @@ def trace_instances(ctx):
                    f'{int(e.interior_dofs)} {int(rd.nnodes)} {lst(fac)} {lst(edg)}.\n'
                    f'Lemma {n}_c_ok : tclass_ok {n}_c = true.\nProof. vm_compute. reflexivity. Qed.\n')
     # all classes in one file first; only if that fails, class by class to name the ones that do not fit
-    good = list(defs)
-    if os.environ.get('C07_TC_PER_CLASS') or not _try_all(ctx, head, defs):
-        for n in defs:
-            ctx.write_gen(f'C07_TC_{n}', head + defs[n])
-        res = ctx.coqc_many([f'gen/C07_TC_{n}.v' for n in defs], timeout=300, jobs=4)
-        good = [n for n in defs if res[f'gen/C07_TC_{n}.v'][0]]
-    skipped = [n for n in defs if n not in good]
-    ctx.extra['trace_support_classes'] = good
-    ctx.extra['trace_support_classes_not_instantiated'] = skipped
-    ctx.log(f'trace_support instantiated for {len(good)} of {len(defs)} traced classes; not: {skipped}')
-    body = ''.join(defs[n] for n in good)
-    body += 'Definition trace_classes : list tclass := ' + clist([f'{n}_c' for n in good]) + '.\n'
-    body += ('Lemma trace_classes_ok : Forall (fun c => tclass_ok c = true /\\ telem_traces_ok (tc_t c) = true) trace_classes.\nProof.\n'
-             '  unfold trace_classes.\n' + ''.join(f'  apply Forall_cons; [split; [exact {n}_c_ok | exact {n}_traces]|].\n' for n in good)
-             + '  apply Forall_nil.\nQed.\n')
-    body += '''
+    THM = '''
 (* for EACH of these element classes (polynomials regenerated from the real lbasis, trace identities decided by C03's checker),
    every commutative ring over Q, every well-formed topology and every facet selection F: every trace component, at every point
    of a local facet of a cell whose attached entities lie in the closure of F, of  sum_d w(d) phi_d  is the same for all
@@ -904,8 +929,50 @@ Proof.
 Qed.
 Print Assumptions C07_trace_support_every_traced_class.
 '''
-    ctx.write_gen('C07_TraceInst', head + body)
-    ctx.compile_dyn(['gen/C07_TraceInst.v'], timeout=600)
+
+    def shard_text(k, names):
+        body = ''.join(defs[n] for n in names)
+        body += f'Definition trace_classes_{k} : list tclass := ' + clist([f'{n}_c' for n in names]) + '.\n'
+        body += (f'Lemma trace_classes_{k}_ok : Forall (fun c => tclass_ok c = true /\\ telem_traces_ok (tc_t c) = true) trace_classes_{k}.\nProof.\n'
+                 f'  unfold trace_classes_{k}.\n' + ''.join(f'  apply Forall_cons; [split; [exact {n}_c_ok | exact {n}_traces]|].\n' for n in names)
+                 + '  apply Forall_nil.\nQed.\n')
+        return head + body + (THM.replace('C07_trace_support_every_traced_class', f'C07_trace_support_every_traced_class_{k}')
+                              .replace('In c trace_classes ->', f'In c trace_classes_{k} ->')
+                              .replace('trace_classes_ok c Hc', f'trace_classes_{k}_ok c Hc'))
+
+    def run_shards(names):
+        shards = [names[k::4] for k in range(4) if names[k::4]]
+        rels = []
+        for k, ns in enumerate(shards):
+            ctx.write_gen(f'C07_TraceInst_{k}', shard_text(k, ns))
+            rels.append(f'gen/C07_TraceInst_{k}.v')
+        res = ctx.coqc_many(rels, timeout=600, jobs=4)
+        return shards, rels, res
+
+    good = list(defs)
+    shards, rels, res = run_shards(good)
+    if not all(res[r][0] for r in rels):
+        # some class does not fit: find them one by one, then prove the theorem for the rest
+        for n in defs:
+            ctx.write_gen(f'C07_TC_{n}', head + defs[n])
+        res1 = ctx.coqc_many([f'gen/C07_TC_{n}.v' for n in defs], timeout=300, jobs=4)
+        good = [n for n in defs if res1[f'gen/C07_TC_{n}.v'][0]]
+        shards, rels, res = run_shards(good)
+    skipped = [n for n in defs if n not in good]
+    ctx.extra['trace_support_classes'] = good
+    ctx.extra['trace_support_classes_not_instantiated'] = skipped
+    ctx.log(f'trace_support instantiated for {len(good)} of {len(defs)} traced classes (in {len(rels)} shards); not: {skipped}')
+    for ns, rel in zip(shards, rels):
+        ok, out, err, secs = res[rel]
+        ctx.log(f'coqc {rel}: {"ok" if ok else "FAILED"} ({secs:.1f}s, {len(ns)} classes)')
+        k = rel.split('_')[-1][:-2]
+        for nm in [f'{n}_c_ok' for n in ns] + [f'trace_classes_{k}_ok', f'C07_trace_support_every_traced_class_{k}']:
+            ctx.obligations.append({'name': f'{rel}:{nm}', 'kind': 'generated', 'ok': ok})
+        if ok:
+            ax = ctx._parse_assumptions(out)
+            ctx.assumptions_seen[f'C07_trace_support_every_traced_class_{k}'] = (ax[-1] if ax and ax[-1] else ['<closed under the global context>'])
+        else:
+            ctx.broke('proof', rel, err[-800:])
 
 
 def replay(ctx, data):
@@ -914,7 +981,9 @@ def replay(ctx, data):
     inp = data['input']
     if 'p' not in inp:
         return run(ctx)
-    table = dict(EL.all_elements(inp['kind']))
+    import skfem.element as _E
+    table = dict(EL.all_elements(inp['kind'])) if inp['kind'] not in SECOND_ORDER else \
+        {'ElementTriP2': _E.ElementTriP2, 'ElementQuad2': _E.ElementQuad2, 'ElementTetP2': _E.ElementTetP2}
     table.update({n: f for k, n, f in _edge_facet_composites()})
     rng = np_seed(ctx, 7)
     c = Context(rng, inp['kind'], inp['element'], table[inp['element']], 0,
